@@ -4,6 +4,8 @@
 -/
 import Cog.Drv.OMapDrv
 import Cog.Drv.VirDrv
+import Cog.Drv.SchemaStore
+import Cog.Drv.SemDrv
 open Cog.Drv
 
 def handle (line : String) : String :=
@@ -13,10 +15,18 @@ def handle (line : String) : String :=
   | "vir" :: rest => virLine (" ".intercalate rest)
   | _ => "bad-request"
 
+/-- verbs that need the driver's schema store (IO) -/
+def handleIO (line : String) : IO String := do
+  let l := line.trimAscii.toString
+  match l.splitOn " " with
+  | "defschemas" :: rest => defSchemas (" ".intercalate rest)
+  | "godec" :: rest => godecLine (" ".intercalate rest)
+  | _ => return handle line
+
 partial def loop (h : IO.FS.Stream) (out : IO.FS.Stream) : IO Unit := do
   let line ← h.getLine
   if line.isEmpty then return ()
-  out.putStrLn (handle line)
+  out.putStrLn (← handleIO line)
   loop h out
 
 def main : IO Unit := do
